@@ -56,6 +56,7 @@ pub fn units() -> Vec<Unit> {
                         "module Top (\n    i_a: input  logic,\n    o_y: output logic,\n) {\n    inst u_sub: Sub (\n        i_a,\n        o_y,\n    );\n}\n",
                         "module Top (\n    i_a: input  logic,\n    o_y: output logic,\n) {\n    inst u_sub: Sub (\n        i_a: i_a,\n        o_y: o_y,\n    );\n}\n",
                         "module Top (\n    i_a: input  logic,\n    o_y: output logic,\n) {\n    var w: logic;\n    inst u_sub0: Sub (\n        i_a: i_a,\n        o_y: w  ,\n    );\n    inst u_sub1: Sub (\n        i_a: w  ,\n        o_y: o_y,\n    );\n}\n",
+                        "module Top (\n    i_a: input  logic,\n    o_y: output logic,\n) {\n    assign o_y = i_a;\n}\n",
                     ],
                 },
             ],
@@ -79,6 +80,7 @@ pub fn units() -> Vec<Unit> {
                         "module UseTypes (\n    o: output Types::Pix,\n) {\n    always_comb {\n        o.c = Types::Color::blue;\n        o.v = 0;\n    }\n}\n",
                         "module UseTypes (\n    o: output Types::Pix,\n) {\n    always_comb {\n        o.c = Types::Color::red;\n        o.v = 3;\n    }\n}\n",
                         "import Types::*;\nmodule UseTypes (\n    o: output Pix,\n) {\n    always_comb {\n        o.c = Color::green;\n        o.v = 1;\n    }\n}\n",
+                        "module UseTypes (\n    o: output logic<6>,\n) {\n    assign o = 0;\n}\n",
                     ],
                 },
             ],
@@ -100,6 +102,14 @@ pub fn units() -> Vec<Unit> {
                     variants: vec![
                         "module UseGen (\n    o1: output logic<4>,\n    o2: output logic<8>,\n) {\n    inst u1: GenM::<4> (\n        o: o1,\n    );\n    inst u2: GenM::<8> (\n        o: o2,\n    );\n}\n",
                         "module UseGen (\n    o1: output logic<4>,\n    o2: output logic<8>,\n) {\n    inst u1: GenM::<4> (\n        o: o1,\n    );\n    assign o2 = 0;\n}\n",
+                    ],
+                },
+                Slot {
+                    path: "src/a_gen_user.veryl",
+                    variants: vec![
+                        "module AGenUser (\n    o: output logic<4>,\n) {\n    inst u: GenM::<4> (\n        o: o,\n    );\n}\n",
+                        "module AGenUser (\n    o: output logic<16>,\n) {\n    inst u: GenM::<16> (\n        o: o,\n    );\n}\n",
+                        "module AGenUser (\n    o: output logic<4>,\n) {\n    assign o = 0;\n}\n",
                     ],
                 },
             ],
@@ -143,6 +153,7 @@ pub fn units() -> Vec<Unit> {
                     variants: vec![
                         "module FUse (\n    i: input  logic<8>,\n    o: output logic<8>,\n) {\n    assign o = FPkg::inc(i);\n}\n",
                         "module FUse (\n    i: input  logic<8>,\n    o: output logic<8>,\n) {\n    assign o = FPkg::inc(FPkg::inc(i));\n}\n",
+                        "module FUse (\n    i: input  logic<8>,\n    o: output logic<8>,\n) {\n    assign o = i;\n}\n",
                     ],
                 },
             ],
@@ -219,6 +230,29 @@ pub fn units() -> Vec<Unit> {
                     variants: vec![
                         "module ExTop (\n    i_a: input  logic<3>,\n    o_y: output logic<3>,\n) {\n    inst u: ExLib (\n        i_a: i_a,\n        o_y: o_y,\n    );\n}\n",
                         "module ExTop (\n    i_a: input  logic<3>,\n    o_y: output logic<3>,\n) {\n    let unused_ex: logic = 0;\n    inst u: ExLib (\n        i_a: i_a,\n        o_y: o_y,\n    );\n}\n",
+                    ],
+                },
+            ],
+        },
+        Unit {
+            name: "attrs",
+            has_tests: false,
+            slots: vec![
+                Slot {
+                    path: "src/attr_m.veryl",
+                    variants: vec![
+                        "module AttrM (\n    i: input  logic,\n    o: output logic,\n) {\n    #[allow(unused_variable)]\n    let tmp: logic = i;\n    assign o = i;\n}\n",
+                        "module AttrM (\n    i: input  logic,\n    o: output logic,\n) {\n    // no attribute here\n    let tmp: logic = i;\n    assign o = i;\n}\n",
+                        "module AttrM (\n    i: input  logic,\n    o: output logic,\n) {\n    let tmp: logic = i;\n    #[allow(unused_variable)]\n    let tmp2: logic = i;\n    assign o = i;\n}\n",
+                        "module AttrM (\n    i: input  logic,\n    o: output logic,\n) {\n    #[allow(unused_variable)]\n    let tmp: logic = i;\n    let tmp3: logic = i;\n    assign o = tmp3;\n}\n",
+                    ],
+                },
+                Slot {
+                    path: "src/cdc_m.veryl",
+                    variants: vec![
+                        "module CdcM (\n    i_clk_a: input  'a clock,\n    i_dat_a: input  'a logic,\n    i_clk_b: input  'b clock,\n    o_dat_b: output 'b logic,\n) {\n    unsafe (cdc) {\n        assign o_dat_b = i_dat_a;\n    }\n}\n",
+                        "module CdcM (\n    i_clk_a: input  'a clock,\n    i_dat_a: input  'a logic,\n    i_clk_b: input  'b clock,\n    o_dat_b: output 'b logic,\n) {\n    // crossing\n    assign o_dat_b = i_dat_a;\n    // end\n}\n",
+                        "module CdcM (\n    i_clk_a: input  'a clock,\n    i_dat_a: input  'a logic,\n    i_clk_b: input  'b clock,\n    o_dat_b: output 'b logic,\n) {\n    var w: 'b logic;\n    unsafe (cdc) {\n        assign w = i_dat_a;\n    }\n    assign o_dat_b = w;\n}\n",
                     ],
                 },
             ],
